@@ -539,7 +539,10 @@ fn gen_p(r: &mut Rng, depth: u32, muldiv: bool) -> P {
         P::And(Box::new(gen_p(r, depth - 1, muldiv)), Box::new(gen_p(r, depth - 1, muldiv)))
     } else {
         let d = 1 + r.below(2) as u32;
-        P::Cmp(gen_e(r, d, muldiv), r.below(5) as usize, gen_e(r, d.saturating_sub(r.below(2) as u32), muldiv))
+        let d2 = d.saturating_sub(r.below(2) as u32);
+        let l = gen_e(r, d, muldiv);
+        let op = r.below(5) as usize;
+        P::Cmp(l, op, gen_e(r, d2, muldiv))
     }
 }
 fn e_has_muldiv(e: &E) -> bool {
@@ -722,7 +725,7 @@ fn jf(x: Option<f64>) -> String {
 }
 fn case_float(r: &mut Rng) {
     let op = r.below(4) as usize;
-    let mut gi = |r: &mut Rng| {
+    let gi = |r: &mut Rng| {
         let (mut l, mut u) = (gen_fbound(r), gen_fbound(r));
         if let (Some(a), Some(b)) = (l, u) { if a > b { l = Some(b); u = Some(a); } }
         (l, u)
